@@ -455,7 +455,7 @@ def identical(a, b, *, equal_nan=False):
 
 
 def allclose(x, y, rtol=None, atol=None, equal_nan=False):
-    """scipp semantics: all(|x - y| <= atol + rtol*|y|); rtol defaults to 1e-5, atol to 1e-8 (dimensionless y only)."""
+    """scipp semantics: all(|x - y| <= atol + rtol*|y|); rtol defaults to 1e-5, atol to 1e-8 in the unit of y."""
     from fractions import Fraction as _F
 
     if x.unit != y.unit:
@@ -463,9 +463,7 @@ def allclose(x, y, rtol=None, atol=None, equal_nan=False):
     if rtol is None:
         rtol = scalar(1e-5)
     if atol is None:
-        if y.unit not in (None, Unit()):
-            raise UnitError('allclose: atol must be given for data with a unit')
-        atol = scalar(1e-8)
+        atol = scalar(1e-8, unit=y.unit)  # real scipp (measured, 25.x): the default takes the unit of y, as in isclose
     if atol.unit != y.unit and not (atol.unit in (None, Unit()) and y.unit in (None, Unit())):
         raise UnitError(f'allclose: atol unit {atol.unit} vs {y.unit}')
     dims, shape = V._merge_dims(x, y)
